@@ -238,7 +238,8 @@ def job_headers(first, maxlen):
                         acc.states.add((name is None, name in D if name else None, a[0]))
                         acc.trans.add((name is None, name in D if name else None, fol[:2], a[0]))
                         if name is not None and name not in D:
-                            want = [(1, len(ind) + 1, '(1:%d): Language not supported: %s' % (len(ind) + 1, name))]
+                            col = len(ind + s) - len((ind + s).lstrip()) + 1      # the header's '#'
+                            want = [(1, col, '(1:%d): Language not supported: %s' % (col, name))]
                             if a[0] == 'ok' or [e[:3] for e in a[1]][:1] != want:
                                 acc.violation('unknown-language', case, 'unknown dialect %r: expected first error %r' % (name, want), observed=a[1] if a[0] != 'ok' else 'accepted')
     acc.sample({'text': text})
